@@ -478,3 +478,70 @@ func H_C02_map_slice_groups() {
 	vAssert((err == nil) == (vCountClauses(err) == 0), "C02 Map([]map) with groups: nil iff no clause")
 	vReach("end")
 }
+
+// rule texts in which the name of one rule occurs inside another item: in a custom message ("must
+// exist"), in the name of a caller's own rule (existsInDb, notrequired) or in an unknown name; every
+// item is what its own key says, nothing else
+type vWWords struct {
+	P  vIn            `valid:"required|profile must exist"`
+	Q  *vIn           `valid:"required,existsInDb"`
+	R  []vIn          `valid:"required|either required or exist"`
+	S  map[string]vIn `valid:"exist|not required"`
+	T  string         `valid:"required|botheq either exist,r1"`
+	U  string         `valid:"notrequired,r2"`
+	V  string         `valid:"requiredx,r3"`
+	W  *vIn           `valid:"existsInDb,exist"`
+	X  [1]vIn         `valid:"r1exist,required"`
+	Y  string         `valid:"r1,to_exist|x"`
+	Z  vIn            `valid:"required|需要 exist 的说明"`
+	A1 *vIn           `valid:"required"`
+}
+
+func H_C02_rule_words() {
+	known := vGlobalRules()
+	SetCustomerValidFn("existsInDb", vURule("existsInDb"))
+	SetCustomerValidFn("notrequired", vURule("notrequired"))
+	known["existsInDb"], known["notrequired"] = true, true
+	// the rules only log their invocations here: which (path, rule) pairs were evaluated is the observable
+	vUNoFail = true
+	c := vIn{N: "n", K: 1}
+	q, w, a1 := vInVal("Q"), c, c
+	o := &vWWords{P: vInVal("P"), Q: &q, R: []vIn{c}, S: map[string]vIn{"k": c}, T: vStr("T"), U: vStr("U"), V: "v",
+		W: &w, X: [1]vIn{c}, Y: "y", Z: c, A1: &a1}
+	if vndBool("nilQ") {
+		o.Q = nil
+	}
+	err := Struct(o)
+	r := vNewRef()
+	r.global = known
+	r.top(o)
+	vCheckAgainstRef("C02 rule names inside other items", err, r)
+	vReach("end")
+}
+
+// one type validated under its two tag names in any order of three calls (the validator object is handed
+// back by the pool between the calls): each call is compared with the reference for the tag it names
+func H_C02_tag_sequence() {
+	vUNoFail = true
+	known := vGlobalRules()
+	for i := 0; i < 3; i++ {
+		tag := []string{"valid", "alt"}[vndChoice("tag"+vNum(i), 2)]
+		var src interface{} = &vT1{A: vStr("A" + vNum(i)), B: "b", C: "c"}
+		if vndBool("nested" + vNum(i)) {
+			src = []*vT2{{A: "a", N: vT1{A: "x", B: vStr("N.B" + vNum(i))}}}
+		}
+		vULog = nil
+		var err error
+		if i%2 == 0 {
+			err = ValidateStruct(src, tag)
+		} else {
+			err = NewVStruct(tag).Valid(src)
+		}
+		r := vNewRef()
+		r.tag = tag
+		r.global = known
+		r.top(src)
+		vCheckAgainstRef("C02 tag sequence call "+vNum(i), err, r)
+	}
+	vReach("end")
+}
